@@ -9,6 +9,7 @@ import (
 	"bytes"
 	"encoding/csv"
 	"fmt"
+	"math"
 	"os"
 	"sort"
 	"strconv"
@@ -272,11 +273,19 @@ func runCase(id int, d Defaults, c *Case) {
 	}
 
 	// ------------------------------------------------------------ sobs: the implementation in spec vocabulary
-	var cellParts, reswParts, gmParts, asParts []string
+	var cellParts, reswParts, gmParts, asParts, orderParts []string
 	statBad := ""
 	for ti, tab := range run.tables.Tables {
 		tid := s.T.id(run.tables.Keys[ti], s.TF)
 		as, _ := assumeOf(run, tab.Unit)
+		dots := func(ks []benchproc.Key, d *dict, fs []*benchproc.Field) string {
+			parts := make([]string, len(ks))
+			for i, k := range ks {
+				parts[i] = strconv.Itoa(d.id(k, fs))
+			}
+			return strings.Join(parts, ".")
+		}
+		orderParts = append(orderParts, fmt.Sprintf("%d:%s/%s", tid, dots(tab.Rows, s.R, s.RF), dots(tab.Cols, s.C, s.CF)))
 		switch tab.Assumption.SummaryLabel() {
 		case "exact":
 			asParts = append(asParts, fmt.Sprintf("%d=e", tid))
@@ -365,6 +374,15 @@ func runCase(id int, d Defaults, c *Case) {
 					flags += "?"
 				}
 			}
+			// +Inf centres: whether go-moremath's running-mean GeoMean ends in NaN depends on where
+			// the infinity stands; S does not judge these columns (K compares them exactly)
+			for _, row := range tab.Rows {
+				for _, cc := range []benchproc.Key{col, baseCol} {
+					if cell, ok := tab.Cells[benchtab.TableKey{Row: row, Col: cc}]; ok && math.IsInf(cell.Summary.Center, 1) {
+						flags = "i"
+					}
+				}
+			}
 			if flags != "" {
 				gmParts = append(gmParts, fmt.Sprintf("%d.%d=%s", tid, s.C.id(col, s.CF), flags))
 			}
@@ -381,10 +399,23 @@ func runCase(id int, d Defaults, c *Case) {
 		return strings.Join(ps, "|")
 	}
 	if prop == "C14" {
-		hx.Printf("sobs %d cells=%s resw=%s gmw=%s assume=%s stats=%s colpos=%s rawcells=%s bin=%s\n", id, sortJoin(cellParts), sortJoin(reswParts), sortJoin(gmParts), sortJoin(asParts), statBad, strings.ReplaceAll(colPosCheck(run), " ", "_"), rawCellsDigest(run, s, specsOK), binState)
+		hx.Printf("sobs %d cells=%s resw=%s gmw=%s assume=%s stats=%s colpos=%s hdrcfg=%s order=%s rawcells=%s bin=%s\n", id, sortJoin(cellParts), sortJoin(reswParts), sortJoin(gmParts), sortJoin(asParts), statBad, strings.ReplaceAll(colPosCheck(run), " ", "_"), strings.ReplaceAll(hdrCfgCheck(run, s), " ", "_"), orderField(orderParts, specsOK), rawCellsDigest(run, s, specsOK), binState)
 	} else {
 		schedCase(id, dir, c, args, run)
 	}
+}
+
+// orderField: tables in output order, each with its rows and columns in output order (ids of
+// the key dictionaries). Judged against the documented orders (first observation, alpha, num,
+// fixed) computed by Spec.Keys from the raw results.
+func orderField(parts []string, ok bool) string {
+	if !ok {
+		return "-"
+	}
+	if len(parts) == 0 {
+		return "none"
+	}
+	return strings.Join(parts, ";")
 }
 
 // lessIDs orders "t.r.c=..." strings numerically by their dotted id prefix.
